@@ -13,7 +13,7 @@ from vizier._src.service import vizier_client
 from vizier._src.service import vizier_service_pb2 as vs
 from vizier.service import pyvizier as vz
 
-ALPHABET = ['', 'a', 'b', 'b:', ':', '\\', 'a\\', 'é', 'a:b', 'x']
+ALPHABET = ['', 'a', 'b', 'b:', ':', '\\', 'a\\', 'é', 'a:b', 'x', '\n', 'a\\\n', '\\\n', 'a b', ' ', 'a\\:', '\\\\']
 BENIGN = ['', 'a', 'b', 'é', 'x']
 # Keys share the namespace alphabet (incl. the separator) so that a store keyed
 # on a concatenation of namespace and key would collide: ns ('a',) + key 'b:a'
@@ -127,7 +127,7 @@ class C10(runner.Check):
   chunk = 20
   probes = ['probe.overwrite', 'probe.algo-write', 'probe.user-write', 'probe.missing-trial-rejected',
             'probe.algo-missing-trial', 'probe.proto-value', 'probe.proto-default-payload', 'probe.proto-overwrites-proto', 'probe.empty-value', 'restart.clean',
-            'probe.ns-roundtrip-checked', 'probe.adversarial-namespace']
+            'probe.ns-roundtrip-checked', 'probe.adversarial-namespace', 'probe.long-lived-handle-read']
 
   def gen(self, rng, idx, tier):
     cfg = {
@@ -228,6 +228,7 @@ class C10(runner.Check):
     writers = set()
     ns_seen = set()
     overwrite = False
+    long_lived = {}
     for step, op in enumerate(plan['ops']):
       kind = op[0]
       sv = world.sv
@@ -392,6 +393,21 @@ class C10(runner.Check):
         got = {k: v for k, v in got_study.items() if not (k[0] and k[0][0] == 'designer_policy_v0')}
         if got != model_study:
           viol.append(self._md_diff('study', got, model_study))
+      # ... and through a client handle that lives as long as the server does (a user's Study object
+      # is typically created once): it must see the writes of algorithms and of other handles too.
+      if long_lived.get('sv') is not sv:
+        long_lived = {'sv': sv, 'study': clients.Study(vizier_client.VizierClient(main, 'unused', sv))}
+      else:
+        res.bump('probe.long-lived-handle-read')
+      try:
+        got_long = md_to_dict(long_lived['study'].materialize_study_config().metadata)
+        got_long = {k: v for k, v in got_long.items() if not (k[0] and k[0][0] == 'designer_policy_v0')}
+        if got_study is not None and got_long != model_study and got == model_study:
+          c, d = self._md_diff('study', got_long, model_study)
+          viol.append(('long-lived-handle:' + c, d))
+      except Exception as e:  # pylint: disable=broad-except
+        if got_study is not None:
+          viol.append(('study-metadata-unreadable', f'long-lived handle: {type(e).__name__}: {str(e)[:150]}'))
       try:
         for t in study.trials().get():
           got = md_to_dict(t.metadata)
